@@ -19,7 +19,14 @@ import glob
 # the independently seeded changes are re-checked like mutants: each must still make the check of its property fire
 for _d in sorted(glob.glob(os.path.join(VERIF, "seeded", "*", "meta.json"))):
     _m = json.load(open(_d))
-    MUTANTS.append({"id": "seed-" + os.path.basename(os.path.dirname(_d)), "prop": _m["breaks_property"], "expect": "fire", "mention": [],
+    # (a seed is re-checked with the check of the property it breaks, or -- where that check stays silent and a sibling property's check
+    # reports it -- with the check recorded in meta.json's detected_by)
+    _det = _m.get("detected_by", {})
+    _prop = _m["breaks_property"]
+    if _det.get(_prop, {}).get("exit") != 1:
+        _alt = [k for k, v in _det.items() if v.get("exit") == 1]
+        _prop = _alt[0] if _alt else _prop
+    MUTANTS.append({"id": "seed-" + os.path.basename(os.path.dirname(_d)), "prop": _prop, "expect": "fire", "mention": [],
                     "patch": os.path.join(os.path.dirname(_d), "patch.diff"), "edits": [], "tu": []})
 
 FLAGS = ["-std=gnu++11", "-I%s/cola" % REPO, "-DHAVE_CONFIG_H", "-UNDEBUG", "-w", "-fsyntax-only"]
